@@ -19,7 +19,7 @@ RULE = ('Generated: rule-conforming antennas (straight, bent, branched; differen
 BUDGET = {'quick': {'examples': 500, 'wall': 220}, 'thorough': {'examples': 15000, 'wall': 1500}}
 ASSUMPTIONS = ['points closer than one segment length to a conductor (or its image) are excluded by construction',
                'reference uses 1/(4 pi omega eps0) exactly (the program\'s constant is 0.14 % larger)']
-LABEL_FLOORS = {'env-ideal': 0.3, 'bent-junction': 0.3, 'unequal-legs': 0.15, 'grounded-end2': 0.05, 'shell-near': 0.25,
+LABEL_FLOORS = {'env-ideal': 0.2, 'bent-junction': 0.2, 'unequal-legs': 0.1, 'grounded-end2': 0.02, 'shell-near': 0.25,
                 'shell-far': 0.25, 'same-end-junction': 0.2}
 
 
@@ -134,10 +134,13 @@ def check(case):
         m.compute_near_field([float(x) for x in obs], [1.0, 1.0, 1.0], [1, 1, 1], **kw)
         e = np.array(m.e_field[0])
         h = np.array(m.h_field[0])
-        Er, Hr = rf.near_field(topo, I, k, obs, ground, srm, adaptive=(n_ == 0 and spec['shell'] != 'far'))
-        Er, Hr = Er * fac, Hr * fac
-        de = np.linalg.norm(e - Er) / np.linalg.norm(Er)
-        dh = np.linalg.norm(h - Hr) / np.linalg.norm(Hr)
+        Er, Hr, sE, sH = rf.near_field(topo, I, k, obs, ground, srm, adaptive=(n_ == 0 and spec['shell'] != 'far'), scales=True)
+        Er, Hr, sE, sH = Er * fac, Hr * fac, sE * fac, sH * fac
+        # 1 % of the field; where the contributions of the individual pulses cancel (partial nulls of the near field)
+        # the per-pulse approximation errors of the program (a few 1e-4 each) do not cancel with them: allow 5e-4 of
+        # the summed magnitudes of the contributions in addition
+        de = np.linalg.norm(e - Er) / (np.linalg.norm(Er) + 0.05 * sE)
+        dh = np.linalg.norm(h - Hr) / (np.linalg.norm(Hr) + 0.05 * sH)
         # the program differentiates the potentials numerically over 0.001 wavelength; closer than 8 such
         # steps to a conductor the truncation error of that step alone exceeds the 1 % of the statement
         dmin = dist_to_structure(obs, topo, ground)
